@@ -26,7 +26,7 @@ ASSUMPTIONS = [
     'by the statement and are not compared',
 ]
 ANCHORS = ['Table.concat', 'concat']
-REQUIRED = ['hollow_operand_cases', 'hollow_operand_concatenated', 'concat_calls', 'operand_list_reused', 'branch_padding', 'branch_resort',
+REQUIRED = ['non_disjoint_under_relaxed_profile', 'hollow_operand_cases', 'hollow_operand_concatenated', 'concat_calls', 'operand_list_reused', 'branch_padding', 'branch_resort',
             'branch_passthrough', 'non_disjoint_refused', 'via_biom_concat',
             'via_table_concat', 'single_table_arg', 'axis_sample',
             'axis_observation', 'k1', 'k2', 'k3plus']
@@ -109,16 +109,29 @@ def run_case(ctx, index):
             'layouts': [gen.layout_state(t) for t in tables]}
     # ------------------------------------------------ refusal of overlaps
     if k >= 2 and index % 9 == 0:
-        dup = specs[0].ids(axis)[0]
+        # an id of any earlier operand turns up again in the last one; the
+        # refusal belongs to concat itself, so it also holds when the
+        # duplicate-id kinds of the error profile are relaxed
+        import contextlib
+        from biom.err import errstate
+        donor = specs[r.randrange(k - 1)]
+        dup = r.choice(donor.ids(axis))
         bad = specs[-1].copy()
         bad.ids(axis)[r.randrange(len(bad.ids(axis)))] = dup
         tb = gen.build(ctx.biom, bad, 'dense')
+        relaxed = r.random() < .5
+        desc['duplicate_profile_relaxed'] = relaxed
+        scope = errstate(obsdup='ignore', sampdup='ignore') if relaxed \
+            else contextlib.nullcontext()
+        if relaxed:
+            ctx.count('non_disjoint_under_relaxed_profile')
         try:
-            if entry == 'biom':
-                import biom
-                biom.concat(tables[:-1] + [tb], axis=axis)
-            else:
-                tables[0].concat(tables[1:-1] + [tb], axis=axis)
+            with scope:
+                if entry == 'biom':
+                    import biom
+                    biom.concat(tables[:-1] + [tb], axis=axis)
+                else:
+                    tables[0].concat(tables[1:-1] + [tb], axis=axis)
         except Exception:
             ctx.count('non_disjoint_refused')
         else:
